@@ -145,6 +145,7 @@ func editSettings(fname string, fn func(s *settings) error) error {
 	if err := fn(settings); err != nil {
 		return err
 	}
+	verifPause("settings.rmw")
 	return writeSettings(fname, settings)
 }
 
